@@ -250,6 +250,16 @@ Alphabet ==
           \* (g, f), not (f, g): a unique_together over the very columns of uq_fg would be a
           \* second, indistinguishable unique index
           MMetaUT("A", << <<"g", "f">> >>), MSQL }
+    [] AlphaId = 14 ->     \* a relation added to a model that is renamed later in the same batch, inside a run
+                           \* of other rebuilding changes of the referring table; the referring model sorts
+                           \* after the renamed one and before its new name, and a third model changes too
+        { MAdd("B", "h", "FK", D2("null", TRUE, "related_model", "A"), None),
+          MAdd("B", "k", "Int", D1("null", TRUE), None),
+          MAdd("B", "g", "Int", D1("null", TRUE), None),
+          MRenM("A", "C"),
+          MAdd("C", "h", "Int", D1("null", TRUE), None),
+          MAdd("A", "h", "Int", D1("null", TRUE), None),
+          MDel("C", "g") }
     [] AlphaId = 13 ->     \* Meta.index_together next to rebuilds, renames and deletions on the same table
         { MAdd("A", "h", "Int", D1("null", TRUE), None),
           MAdd("A", "h", "Char", D1("max_length", 10), "i"),
@@ -883,9 +893,23 @@ RebuildsNotWorse ==
 MergeableKind(mu) ==
     \/ mu.k \in {"Add", "Del", "Meta"}
     \/ (mu.k = "Chg" /\ mu.ftype = None /\ "db_column" \notin DOMAIN mu.attrs)
+(* ... and in general: a table is rewritten at most once per maximal run of consecutive mergeable
+   mutations on its model (as the sequence is written), plus once per change that is not mergeable
+   (a type change, a column rename through ChangeField) *)
+RECURSIVE RunBound(_, _, _, _)
+RunBound(ms, sig, prevModel, acc) ==
+    IF ms = <<>> THEN acc
+    ELSE LET mu == Head(ms)
+             nxt == Sim(mu, sig).sig
+             tbl == IF mu.m \in DOMAIN sig THEN sig[mu.m].table ELSE "?"
+         IN IF MergeableKind(mu)
+            THEN RunBound(Tail(ms), nxt, mu.m, IF mu.m = prevModel THEN acc ELSE Bump(acc, tbl, 1))
+            ELSE IF mu.k = "Chg" THEN RunBound(Tail(ms), nxt, None, Bump(acc, tbl, 1))
+            ELSE RunBound(Tail(ms), nxt, None, acc)
 OneRebuildPerMergeableRun ==
-    (One.ok /\ seq # <<>> /\ \A i \in 1..Len(seq) : MergeableKind(seq[i]) /\ seq[i].m = seq[1].m)
-      => SumOver(RbOpt, DOMAIN RbOpt) <= 1
+    One.ok => LET bound == RunBound(seq, Sig0, None, EmptyDict)
+              IN \A t \in DOMAIN RbOpt :
+                    SumOver(RbOpt, TableClass(t)) <= SumOver(bound, TableClass(t))
 
 C11NoDangling == NoDangling(cur, deleted)
 
